@@ -928,7 +928,7 @@ func main() {
 	r.Rule("a flag-word case is non-trivial when at least two named bits are set, or a named and an unnamed bit together (fingerprint: entry point + word); " +
 		"a constant case when its family declares at least two values (fingerprint: lookup + value); a predicate counts once per predicate. " +
 		"Exhaustive sub-domains: all 65 536 words of Flags and Flags2 (String and every predicate), all 256 words of SecurityMode and CustomKeyInformationFlags, " +
-		"every distinct declared value of every constant family found in the source")
+		"every distinct declared value of every constant family found in the source. State monitors (state.go): each FromBytes receiver decodes chains of declared values into one object (every ordered pair), Value assigned directly, GetFlags/Name slices held and re-compared, every lookup table asked in three other orders by one caller and by 8 goroutines; each receiver/table counts once")
 	r.Assume(
 		"constants are enumerated from "+mon.RepoRoot()+" with go/parser (go/types only folds the constant expressions); the binary is compiled from the same tree",
 		"names: exact families accept the identifier or the identifier minus (a prefix of) the family prefix; display-text families (key-credential, DomainFunctionalityLevel, MSPKIEnrollmentFlag) accept any text of which the identifier's alphanumerics are a subsequence",
@@ -945,6 +945,7 @@ func main() {
 		checkEnumFamily(src, f)
 	}
 	checkNTStatusError(src)
+	stateMonitors(src) // state.go: receiver reuse, stale Value, held slices, lookup order and concurrent callers
 
 	// bookkeeping: what the source declares that no binding executes
 	bound := map[string]bool{}
